@@ -10,6 +10,9 @@ import (
 func getErr(meta any) any {
 	switch metaValue := meta.(type) {
 	case *confirmed_block.TransactionStatusMeta:
+		if metaValue.GetErr() == nil {
+			return nil // no error (NOT a nil map[string]any in a non-nil interface, which compares != nil)
+		}
 		out, _ := solanaerrors.ParseTransactionError(metaValue.Err)
 		return out
 	case *metalatest.TransactionStatusMeta:
